@@ -84,6 +84,7 @@ class Runner:
         self.shut = False
         self.errors = []
         self.failures = {}
+        self.snapshots = []
         self.done_calls = {}
         self.shutdown_info = {}
         self.futures_at_shutdown = {}
@@ -175,6 +176,7 @@ class Runner:
             return
         self._deferred = None
         self.concrete.append(ev)
+        self.snapshots.append(self.state_summary())      # the tables just before this input
         self.log.append(("in", event_token(ev), now))
         try:
             getattr(self, "do_" + ev[0])(ev)
@@ -360,6 +362,7 @@ class Runner:
             await asyncio.sleep((last + 1) * vloop.TICK)
             for _ in range(10):
                 await asyncio.sleep(0)
+            self.snapshots.append(self.state_summary())
             if self.shut:
                 await self.shutdown_task
                 if self.script.get("second_context"):
@@ -375,6 +378,31 @@ class Runner:
     async def second_context_works(self):
         """another context in the same loop still serves a request after the first was shut down"""
         return await probe_context(self.loop, self.ctx2, self.net2)
+
+    def state_summary(self):
+        """the tables of MessageManager and TokenManager, rendered like the model's `stateStr`;
+        "n/a" when the implementation's private attributes are not the ones this probe knows (after a
+        refactoring): the comparison then falls back to the observable trace alone"""
+        try:
+            return self._state_summary()
+        except (AttributeError, TypeError, ValueError, KeyError):
+            return "n/a"
+
+    def _state_summary(self):
+        tman = self.ctx.request_interfaces[0]
+        mman = tman.token_interface
+        rid = lambda r: self.remote_id(r.sockaddr)
+        j = lambda l: ",".join(sorted(l))
+        shut = mman._active_exchanges is None
+        ex = [] if shut else [f"{rid(r)}:{mid}" for (r, mid) in mman._active_exchanges]
+        bl = [] if shut else [f"{rid(r)}:{len(l)}" for r, l in mman._backlogs.items()]
+        pg = [f"{rid(r)}:{_hex(tok)}:{mid}" for (r, tok), (mid, _h) in mman._piggyback_opportunities.items()]
+        rc = [f"{rid(r)}:{mid}:{0 if v is None else 1}" for (r, mid), v in mman._recent_messages.items()]
+        og = [] if tman.outgoing_requests is None else \
+            [f"{_hex(tok)}:{'m' if r is None else rid(r)}" for (tok, r) in tman.outgoing_requests]
+        ic = [] if tman.incoming_requests is None else \
+            [f"{_hex(tok)}:{rid(r)}" for (tok, r) in tman.incoming_requests]
+        return f"ex={j(ex)} bl={j(bl)} pg={j(pg)} rc={j(rc)} og={j(og)} ic={j(ic)}"
 
     # Site interface bits the context touches
     def get_resources_as_linkheader(self):
@@ -421,7 +449,8 @@ def run_script(script):
     return {
         "concrete": concrete,
         "groups": groups,
-        "impl_line": "|".join(";".join(sorted(g)) for g in groups),
+        "impl_line": "|".join(";".join(sorted(g)) + "~" + (r.snapshots[i] if i < len(r.snapshots) else "?")
+                              for i, g in enumerate(groups)),
         "args": args,
         "same_tick_inputs": same_tick,
         "wire": r.net.sent,
@@ -472,6 +501,12 @@ def canon_model_line(line):
     if line.startswith("TIE "):
         tie = True
         line = line[4:]
-    groups = [g.strip() for g in line.split("|")]
-    out = "|".join(";".join(sorted(x for x in g.split(";") if x)) for g in groups)
+    def canon_group(g):
+        outs, _, state = g.partition("~")
+        # the retransmission counter is not observable in the implementation's tables
+        state = " ".join(("ex=" + ",".join(":".join(x.split(":")[:2]) for x in part[3:].split(",") if x))
+                         if part.startswith("ex=") else part for part in state.split(" "))
+        return ";".join(sorted(x for x in outs.split(";") if x)) + "~" + state
+
+    out = "|".join(canon_group(g.strip()) for g in line.split("|"))
     return out, tie, starved
